@@ -783,7 +783,15 @@ INTEGER_encode_uper(const asn_TYPE_descriptor_t *td,
 		ASN__ENCODE_FAILED;
 	}
 
-	for(buf = st->buf, end = st->buf + st->size; buf < end;) {
+	buf = st->buf;
+	end = st->buf + st->size;
+	/* X.691 #10.8: 2's-complement-binary-integer in the minimum number of octets */
+	while(end - buf > 1
+	      && ((buf[0] == 0x00 && !(buf[1] & 0x80))
+	          || (buf[0] == 0xff && (buf[1] & 0x80)))) {
+		buf++;
+	}
+	while(buf < end) {
         int need_eom = 0;
         ssize_t mayEncode = uper_put_length(po, end - buf, &need_eom);
         if(mayEncode < 0)
